@@ -58,6 +58,7 @@ DataMatch(v, dd) ==
 
 DiskObsOK(o) ==
     LET d == o.disk IN
+    /\ Chk("disk.decodable", "error" \notin DOMAIN d)      \* the independent decoder could parse the header
     /\ Chk("disk.exists", d.exists = 1)
     /\ Chk("disk.wellformed", d.problems = <<>>)
     /\ Chk("disk.fmt", d.fmt = fmt')
@@ -139,6 +140,7 @@ TOp ==
               [] ev.e = "open"         -> Reopen(rc)
               [] ev.e = "put"          -> PutData(a.v, a.rec, a.vals, rc)
               [] ev.e = "fill_var_rec" -> FillRec(a.v, a.rec, rc)
+              [] ev.e \in {"begin_indep", "end_indep"} -> Stutter(ev.e) /\ rc = "NC_NOERR"
               [] ev.e = "get"          ->
                     /\ Stutter("get") /\ rc = "NC_NOERR"
                     /\ LET v == vars[a.v + 1]
@@ -147,7 +149,7 @@ TOp ==
               [] OTHER -> FALSE
          /\ ObsOK(ev)
          \* C06: an aborted redefinition leaves the file byte-for-byte as it was
-         /\ shaRedef' = IF ev.e = "redef" /\ rc = "NC_NOERR" THEN ev.obs.sha ELSE shaRedef
+         /\ shaRedef' = IF ev.e = "redef" /\ rc = "NC_NOERR" /\ "sha" \in DOMAIN ev.obs THEN ev.obs.sha ELSE shaRedef
          /\ (ev.e = "abort" /\ saved.on /\ "sha" \in DOMAIN ev.obs) => Chk("abort.bytes", ev.obs.sha = shaRedef)
     /\ l' = l + 1
 
